@@ -14,7 +14,8 @@ TRUSTED = ["correspondence harness harness/pC10.py and driver SmrtVerif/Driver/C
            "parameters, nsamples of generic_ft_even_matrix, the SCE second-order term A2 (quadrature over the microstructure "
            "functions) and, for the SCE phase function, the spectrum at the complex wavenumber the code evaluates it at",
            "real arithmetic in the theorems vs IEEE doubles in the code (rounding not modelled)"]
-ASSUMPTIONS = ["snow layers: density 30-900 kg/m3, 200-273 K, 1-100 GHz, characteristic size/wavelength in [0.002, 0.05]; "
+ASSUMPTIONS = ["snow layers: density 30-900 kg/m3, 200-273 K, 1-100 GHz, scatterer size/wavelength in [0.002, 0.05] where size = sphere "
+               "diameter, correlation length (the larger one for the unified Teubner-Strey model); "
                "background = air (real permittivity 1) unless the DMRT models invert the medium above frac_volume 0.5",
                "the Rayleigh class is modelled for a real background permittivity (with a complex one the code's `e0**2` makes ks complex)",
                "gaussian_random_field (spectrum by numerical FFT, C17) takes part in the oracle only",
@@ -239,6 +240,13 @@ def correspond(ctx):
                  lambda: ft_flat(em, mus, mui, m_max, npol_arg), linemax=True, desc=dict(npol=npol_arg, m_max=m_max, mu_s=mus, mu_i=mui))
             co.note(f"ulaby npol={npol_arg} m_max{'=0' if m_max == 0 else '>0'}")
         addv(co, "ke", f"presc {f2t(lay.ks)} {f2t(lay.ka)}", lambda: ke_slots(em, rng))
+        # the sign convention (`basis` of the theorems): the code's own Fourier helper applied to the code's phase() gives Ulaby's modes
+        from smrt.core.lib import generic_ft_even_matrix
+        if abs(mui) < 1:
+            mm = int(rng.integers(2, 5))
+            addv(co, "rayleigh.fourier_roundtrip", f"ulaby {f2t(lay.ks)} 3 {mm} {f2t(mus)} {f2t(mui)}",
+                 lambda: np.asarray(generic_ft_even_matrix(lambda dphi: em.phase(np.array([mus]), np.array([mui]), dphi, 3), mm).values)[:, :, :, 0, 0].ravel(),
+                 linemax=True, desc=dict(m_max=mm, mu_s=mus, mu_i=mui))
 
     # ---- scalar coefficients of the Rayleigh family
     for _ in range(reps * 4):
@@ -543,8 +551,11 @@ def witnesses(ctx):
             bad = check_case(inp)
         except Exception:  # noqa
             continue
+        seen = set()
         for suffix, what, obs, req in bad:
-            out.append(Finding(site(inp["emmodel"], suffix), f"{inp['emmodel']} x {inp['ms']}: {what}", inp, obs, req))
+            if suffix not in seen:
+                seen.add(suffix)
+                out.append(Finding(site(inp["emmodel"], suffix), f"{inp['emmodel']} x {inp['ms']}: {what}", inp, obs, req))
     return out
 
 
